@@ -773,6 +773,14 @@ impl Context {
                         }
                     })
                     .try_collect()?;
+                let mut fields: Vec<(String, bool)> = fields;
+                if self.keep_unknown_fields.contains(did) {
+                    // structs built with unknown-field retention have one more member
+                    fields.push((
+                        "_unknown_fields: ::pilota::LinkedBytes::new()".to_string(),
+                        false,
+                    ));
+                }
                 let is_const = fields.iter().all(|(_, is_const)| *is_const);
                 let fields = fields.into_iter().map(|f| f.0).join(",");
 
